@@ -43,6 +43,7 @@ type c20In struct {
 	LatencyMS []int     `json:"latency_ms,omitempty"`
 	FailAt    int       `json:"fail_at"` // position of an injected op-error on the loader's I/O (-1 none)
 	Base      string    `json:"base"`
+	DecoysFirst bool    `json:"decoys_first,omitempty"` // the files without the .json extension are created before the others (they then come first in a listing)
 	Second    bool      `json:"second,omitempty"` // files with an odd index live under "second/" and are loaded by a second Load into the same store
 }
 
@@ -120,6 +121,7 @@ func c20Gen(r *Rand, tier string) interface{} {
 	if in.FailAt < 0 && nf >= 2 && r.Chance(1, 4) {
 		in.Second = true
 	}
+	in.DecoysFirst = r.Bool()
 	return in
 }
 
@@ -214,6 +216,14 @@ func c20Run(inI interface{}, env *Env) *Failure {
 				panic(harnessTrouble{err.Error()})
 			}
 		}
+		writeDecoys := func() {
+			for _, d := range in.Decoys {
+				_ = mem.WriteFile(root+d, []byte(`{"decoy":"must not be loaded"}`), filesystem.DefaultUnixFileMode)
+			}
+		}
+		if in.DecoysFirst {
+			writeDecoys()
+		}
 		if in.Second {
 			if err := mem.MkdirAll("second", filesystem.DefaultUnixDirMode); err != nil {
 				panic(harnessTrouble{err.Error()})
@@ -272,8 +282,8 @@ func c20Run(inI interface{}, env *Env) *Failure {
 				expected[k] = v
 			}
 		}
-		for _, d := range in.Decoys {
-			_ = mem.WriteFile(root+d, []byte(`{"decoy":"must not be loaded"}`), filesystem.DefaultUnixFileMode)
+		if !in.DecoysFirst {
+			writeDecoys()
 		}
 		for _, d := range in.EmptyDirs {
 			_ = mem.MkdirAll(root+d, filesystem.DefaultUnixDirMode)
